@@ -11,13 +11,24 @@
 (*      variants where numeric constants are replaced by variables bound to the *)
 (*      same value and the reverse: all must agree (no value model needed, so   *)
 (*      trigonometric / logarithmic functions and huge bindings are covered)    *)
+(*  {k:"lex", text, bind, eng, got}  one evaluation of a formula given as BYTES *)
+(*      (a random formula rendered to text, most of them with a byte inserted,   *)
+(*      overwritten, deleted, doubled or swapped): classified by the lexical     *)
+(*      layer MathExprLex!LexClass - malformed (bracket, operand, structure) =>  *)
+(*      rejected; well-formed => accepted with the value of LexTree; the known   *)
+(*      blank-in-group leniency keeps its own class                              *)
+(*  {k:"bind", toks, bind, badv, eng, got}  one evaluation of the compiled       *)
+(*      formula `toks` on match data where the variables listed in badv read no  *)
+(*      number (a word, an empty or absent cell) and the others the values of    *)
+(*      bind: judged by MathExprBind!BindResult - <BAD-TYPE> when a variable of  *)
+(*      the formula reads no number (not demanded with && / ||), else the value  *)
 (* An outcome: c = "num" (ip = floor, fp = millionths), "big" (sg, ex, mt: sign, *)
 (* decimal exponent, 7 digits), "nan", "pinf", "ninf", "err" (rejected at       *)
 (* compile time), "panic"; x = the exact result (the text `{! ..}` printed, or  *)
 (* the float64 in shortest round-trip form).                                    *)
 (* The trace spec is total: every record is consumed; the records the           *)
 (* specification cannot explain are collected in `bad`.                         *)
-EXTENDS MathExpr, Json
+EXTENDS MathExprLex, MathExprBind, Json
 
 Trace == ndJsonDeserialize("trace.ndjson")
 
@@ -50,9 +61,32 @@ ValClass(r) ==
 LawClass(r) ==
   IF \E i \in 1..Len(r.got) : r.got[i].c = "panic" THEN "panic"
   ELSE IF \A i \in 2..Len(r.got) : Agree(r.got[1], r.got[i]) THEN "" ELSE "law"
-BadClass(r) == IF r.k = "val" THEN ValClass(r) ELSE IF r.k = "law" THEN LawClass(r) ELSE "unknown"
+LexRecClass(r) ==
+  LET o == LexClass(r.text) IN
+  IF r.got.c = "panic" THEN "panic"
+  ELSE IF o.cls = "mal" THEN (IF r.got.c = "err" THEN "" ELSE "accept-malformed:" \o o.why)
+  ELSE IF o.cls = "wf" THEN
+       IF r.got.c = "err" THEN "reject-wellformed"
+       ELSE LET v == Value(o.t, r.bind) IN IF v.def /\ ~Close(r.got, v) THEN "value" ELSE ""
+  ELSE ""
+BindRow(r) == [i \in 1..Len(r.bind) |-> IF \E j \in 1..Len(r.badv) : r.badv[j] = i THEN BadCell ELSE NumCell(r.bind[i])]
+BindRecClass(r) ==
+  IF r.got.c = "panic" THEN "panic"
+  ELSE IF Class(r.toks) # "wf" THEN ""
+  ELSE LET t == ParseRef(r.toks).t
+           want == BindResult(t, BindRow(r))
+           marker == r.got.c = "text" /\ r.got.x = "<BAD-TYPE>" IN
+       IF r.got.c = "err" THEN "reject-wellformed"
+       ELSE IF want.bad THEN (IF Lazy(t) \/ marker THEN "" ELSE "bind:missed-bad")
+       ELSE IF r.got.c = "text" THEN "bind:false-bad"
+       ELSE IF want.v.def /\ ~Close(r.got, want.v) THEN "bind:value" ELSE ""
+BadClass(r) == IF r.k = "val" THEN ValClass(r) ELSE IF r.k = "law" THEN LawClass(r)
+               ELSE IF r.k = "lex" THEN LexRecClass(r) ELSE IF r.k = "bind" THEN BindRecClass(r) ELSE "unknown"
 Demands(r) ==
   IF r.k = "law" THEN Len(r.got) >= 2
+  ELSE IF r.k = "bind" THEN Class(r.toks) = "wf" /\ (LET w == BindResult(ParseRef(r.toks).t, BindRow(r)) IN
+                                                      (w.bad /\ ~Lazy(ParseRef(r.toks).t)) \/ (~w.bad /\ w.v.def))
+  ELSE IF r.k = "lex" THEN (LET o == LexClass(r.text) IN o.cls = "mal" \/ (o.cls = "wf" /\ Value(o.t, r.bind).def))
   ELSE LET c == Class(r.toks) IN
        c = "mal" \/ (c = "wf" /\ Value(ParseRef(r.toks).t, r.bind).def)
 
